@@ -202,6 +202,8 @@ def handleSearch : Handler := fun st op args =>
         else "ok"
       | _, _, _ => "bad-args")
   | "anq", _ => some (st, "ok")
+  -- race-detector run of the repository's cancel tests (supporting evidence only; no model side)
+  | "racecheck", _ => some (st, "ok")
   | "eqclaim", [a, b] => some (st, if a == b then "1" else "0")
   -- claims of C04 (the harness prints what the real engine did; the model side is the claim itself)
   | "c04", _ => some (st, "legal pvok")
